@@ -240,7 +240,7 @@ def compMerge (rec : Node → Node → Except Err (Node × Bool)) (sf : Flags) (
       | .error e => .error e
       | .ok scs' => finishMerge sf sk scs' o
 
-/-- index validation of ConfigList.on_merge_impl for a mapping `other`:
+/-- index validation of ConfigList.on_merge_impl for a non-deleting mapping `other`:
     `none` ⇔ TypeError / some index missing (both end as MergeError). -/
 def listKeysValid (len : Nat) : List (Key × Node) → Bool
   | [] => true
@@ -259,7 +259,7 @@ def listMerge (rec : Node → Node → Except Err (Node × Bool)) (sf : Flags) (
   match o with
   | .leaf .. => compMerge rec sf sk scs o
   | .comp _ ok ocs =>
-    if ok.isDictFam && !listKeysValid scs.length ocs then .error .merge
+    if ok.isDictFam && !eDel o && !listKeysValid scs.length ocs then .error .merge
     else compMerge rec sf sk scs (filterNode (keepIfExists (.comp sf sk scs)) [] o).1
 
 /-- `FunctionNode.ayns.on_merge_impl` with `self = comp sf sk scs`, `sk = call f | bind f`. -/
